@@ -109,10 +109,15 @@ static void big_dump(int n)
 		if ((i % 16 == 15 || i == n - 1)) { if (pos >= outlen || out[pos] != '\n') shape = 0; pos++; }
 	}
 	if (pos != outlen) shape = 0;
-	const char *p = NULL; int back = 1;
-	int r = hex_get_byte(out, &p);
-	for (int i = 0; i < n; i++) { if (r != b[i]) { back = 0; break; } r = hex_get_byte(NULL, &p); }
-	if (back && r != -1) back = 0;
+	/* parse-back (quadratic: hex_get_byte looks for a ':' in the whole rest of the text at every line) only for a subset;
+	 * back = 2 means "not run for this length", the exact text check above always runs */
+	int back = 2;
+	if (n <= 4096 || n % 251 == 0) {
+		const char *p = NULL; back = 1;
+		int r = hex_get_byte(out, &p);
+		for (int i = 0; i < n; i++) { if (r != b[i]) { back = 0; break; } r = hex_get_byte(NULL, &p); }
+		if (back && r != -1) back = 0;
+	}
 	printf("{\"e\":\"BigDump\",\"n\":%d,\"ret\":%d,\"outlen\":%zu,\"shape\":%d,\"back\":%d}\n", n, ret, outlen, shape, back);
 	free(out); free(b);
 }
